@@ -315,7 +315,48 @@ func longLivedHistory(c *fw.Ctx, tag string, sweep func(disk string, pndb *util.
 	c.Distinct("nontrivial", fw.Hash64("long", c.Idx, len(saved)))
 }
 
+// c04largeValues: values at and just below the size limit (the limit applies to the value; the stored record is a little
+// longer) are saved and must be readable from the store alone.
+func c04largeValues(c *fw.Ctx) {
+	disk := fmt.Sprintf("/verif-stub/C04/%d/%d/large", c.Seed, c.Idx)
+	defer grocksdb.DropDisk(disk)
+	pndb, err := util.NewPNodeDB(disk, "")
+	if err != nil {
+		panic(err)
+	}
+	defer pndb.Close()
+	P := lab.NewMPT(util.NewLevelNodeDB(util.NewMemoryNodeDB(), pndb, false), 1, nil)
+	model := map[string][]byte{}
+	for i, sz := range []int{util.MPTMaxAllowableNodeSize, util.MPTMaxAllowableNodeSize - 1, util.MPTMaxAllowableNodeSize - 60, 1 << 20} {
+		v := bytes.Repeat([]byte{byte('a' + i)}, sz)
+		p := fmt.Sprintf("0%d0a", i)
+		if _, ierr := P.Insert(util.Path(p), &lab.Val{B: v}); ierr != nil {
+			c.Violate("", "a value of %d bytes (limit %d) was refused: %v", sz, util.MPTMaxAllowableNodeSize, ierr)
+			return
+		}
+		model[p] = v
+	}
+	if serr := P.SaveChanges(context.Background(), pndb, false); serr != nil {
+		c.Violate("", "saving values at the size limit failed: %v", serr)
+		return
+	}
+	F := lab.NewMPT(pndb, 1, P.GetRoot())
+	for p, v := range model {
+		d, gerr := F.GetNodeValueRaw(util.Path(p))
+		if gerr != nil || !bytes.Equal(d, v) {
+			c.Violate("", "a saved value of %d bytes (limit %d) read from the store alone: %d bytes, %v", len(v), util.MPTMaxAllowableNodeSize, len(d), gerr)
+			return
+		}
+	}
+	c.Count("values_at_the_size_limit_saved_and_reread", int64(len(model)))
+	c.Distinct("nontrivial", fw.Hash64("large", c.Idx))
+}
+
 func runC04(c *fw.Ctx) {
+	if c.Idx == 7 {
+		c04largeValues(c)
+		return
+	}
 	if (c.Idx/16+c.Idx)%6 == 4 {
 		c04longLived(c)
 		return
@@ -774,7 +815,7 @@ func init() {
 		Rule: "each case is a history of 3..10 rounds on a persistent store (real PNodeDB over the logging/crashing grocksdb stand-in). A round = block trie layered over the store at the previous saved root, 1..4 child transactions (1..6 inserts/deletes each, including delete-then-recreate of " +
 			"identical content, re-creation of content deleted in earlier rounds, unchanged re-writes) merged or discarded, then an existence probe of the new root on the store, SaveChanges(includeDeletes=false), RecordDeadNodes and a completeness read of the saved root through the same store object; random PruneBelowVersion in between; about every 32nd history contains one fat round (300..1100 inserts: several hundred to more than a thousand changed nodes in one save). After each save every retained root is re-read on a re-opened store " +
 			"(HasMissingNodes, lookups, Iterate, raw stored bytes through the harness' parser). For EVERY prefix length i=0..W of the save's physical write stream the round is re-executed from a copy of the pre-round disk with the store crashing after i writes; after restart every earlier " +
-			"retained root must be fully readable and re-executing + re-saving the round must give the same root and a complete state; the same failure is also played as a transient write error (the same trie and store objects retry the save once the store accepts writes again: a retry that reports success must leave a complete state). A sixth of the histories instead keep ONE block-state trie object through all rounds (SetVersion per round, children merged into it, the growing pending set saved again every round, sometimes twice in a row) and re-read every saved root from the store alone after every save; at the end the trie is rebased onto the persistent store (SetNodeDB), must read the saved content, and a write through it must be complete on the store. non-trivial/distinct = distinct (history, round, crash index, root) points",
+			"retained root must be fully readable and re-executing + re-saving the round must give the same root and a complete state; the same failure is also played as a transient write error (the same trie and store objects retry the save once the store accepts writes again: a retry that reports success must leave a complete state). Case 7 saves values of exactly the size limit, one byte and 60 bytes less, and reads them from the store alone. A sixth of the histories instead keep ONE block-state trie object through all rounds (SetVersion per round, children merged into it, the growing pending set saved again every round, sometimes twice in a row) and re-read every saved root from the store alone after every save; at the end the trie is rebased onto the persistent store (SetNodeDB), must read the saved content, and a write through it must be complete on the store. non-trivial/distinct = distinct (history, round, crash index, root) points",
 		Cases: func(tier string) int {
 			if tier == "thorough" {
 				return 48000
@@ -782,7 +823,7 @@ func init() {
 			return 2000
 		},
 		Run:        runC04,
-		Floors:     map[string]int64{"histories": 1500, "long_lived_trie_histories": 250, "rounds_on_a_long_lived_trie": 1200, "rounds": 9000, "crash_points": 30000, "roots_reread": 30000, "prunes": 1000, "recreate_same_txn": 1000, "recreate_from_graveyard": 1000, "max:save_stream_writes": 2, "fat_rounds": 30, "same_object_save_retries": 15000},
+		Floors:     map[string]int64{"histories": 1500, "long_lived_trie_histories": 250, "values_at_the_size_limit_saved_and_reread": 4, "rounds_on_a_long_lived_trie": 1200, "rounds": 9000, "crash_points": 30000, "roots_reread": 30000, "prunes": 1000, "recreate_same_txn": 1000, "recreate_from_graveyard": 1000, "max:save_stream_writes": 2, "fat_rounds": 30, "same_object_save_retries": 15000},
 		Exhaustive: nil,
 		Assumptions: []string{
 			"the store is modelled as a sorted KV store with atomic write batches and process-crash durability of completed writes (wo.SetSync(false)); OS-crash loss of unsynced WAL is out of scope",
